@@ -37,6 +37,12 @@ type Solver struct {
 	stack    [][]*Term // assertions per push level (for restarts)
 	Restarts int
 	Timeouts int
+
+	OneShot    bool // every check-sat runs in a fresh non-incremental process
+	FallbackMs int  // incremental answer awaited this long before falling back to one-shot (0: never)
+	OneShots   int
+	lastModel  map[string]uint64
+	lastOne    bool
 }
 
 // SolverSpec names a solver back end.
@@ -234,15 +240,26 @@ func (s *Solver) readLine(limit time.Duration) (string, error) {
 // Check runs check-sat on the current assertion stack.
 func (s *Solver) Check() Result {
 	t0 := time.Now()
-	s.send("(check-sat)")
 	s.Queries++
 	defer func() { s.Time += time.Since(t0) }()
-	deadline := time.Now().Add(time.Duration(s.HardMs) * time.Millisecond)
+	s.lastOne = false
+	if s.OneShot {
+		return s.checkOneShot()
+	}
+	s.send("(check-sat)")
+	limit := s.HardMs
+	if s.FallbackMs > 0 && s.FallbackMs < limit {
+		limit = s.FallbackMs
+	}
+	deadline := time.Now().Add(time.Duration(limit) * time.Millisecond)
 	for {
 		l, err := s.readLine(time.Until(deadline))
 		if err == errSolverTimeout {
 			s.Timeouts++
 			s.restart()
+			if s.FallbackMs > 0 {
+				return s.checkOneShot()
+			}
 			return Unknown
 		}
 		if err != nil {
@@ -272,9 +289,8 @@ func (s *Solver) Check() Result {
 
 // CheckWith returns the status of stack ∧ t without changing the stack.
 func (s *Solver) CheckWith(t *Term) Result {
-	s.define(t)
 	s.Push()
-	s.send(fmt.Sprintf("(assert %s)", t.ref()))
+	s.Assert(t)
 	r := s.Check()
 	s.Pop(1)
 	return r
@@ -285,6 +301,15 @@ func (s *Solver) CheckWith(t *Term) Result {
 func (s *Solver) Values(ts []*Term) (map[*Term]uint64, error) {
 	res := map[*Term]uint64{}
 	if len(ts) == 0 {
+		return res, nil
+	}
+	if s.lastOne {
+		for _, t := range ts {
+			if t.op != "var" {
+				return nil, fmt.Errorf("one-shot model only has variables")
+			}
+			res[t] = s.lastModel[t.name]
+		}
 		return res, nil
 	}
 	for _, t := range ts {
@@ -490,4 +515,111 @@ func parseSMTValue(v string, sort Sort) (uint64, error) {
 		}
 	}
 	return 0, fmt.Errorf("cannot parse solver value %q of sort %v", v, sort)
+}
+
+// checkOneShot decides the current assertion stack in a fresh solver process. z3's incremental
+// mode skips the preprocessing that makes floating-point and wide bit-vector problems tractable;
+// the same query is often answered in seconds non-incrementally.
+func (s *Solver) checkOneShot() Result {
+	s.OneShots++
+	var sb strings.Builder
+	sb.WriteString("(set-option :produce-models true)\n")
+	if s.spec.Name == "cvc5" {
+		sb.WriteString("(set-logic ALL)\n")
+	}
+	defined := map[int]bool{}
+	var vars []*Term
+	var def func(t *Term)
+	def = func(t *Term) {
+		if t.op == "const" || defined[t.id] {
+			return
+		}
+		for _, a := range t.args {
+			def(a)
+		}
+		defined[t.id] = true
+		if t.op == "var" {
+			fmt.Fprintf(&sb, "(declare-const %s %s)\n", t.ref(), t.sort)
+			vars = append(vars, t)
+		} else {
+			fmt.Fprintf(&sb, "(define-fun t%d () %s %s)\n", t.id, t.sort, t.body())
+		}
+	}
+	for _, lvl := range s.stack {
+		for _, t := range lvl {
+			def(t)
+			fmt.Fprintf(&sb, "(assert %s)\n", t.ref())
+		}
+	}
+	sb.WriteString("(check-sat)\n")
+	if len(vars) > 0 {
+		sb.WriteString("(get-value (")
+		for _, v := range vars {
+			sb.WriteString(v.ref())
+			sb.WriteByte(' ')
+		}
+		sb.WriteString("))\n")
+	}
+	var argv []string
+	secs := s.spec.TimeoutMs/1000 + 1
+	switch s.spec.Name {
+	case "cvc5":
+		argv = []string{"cvc5", "--lang=smt2", "--produce-models", fmt.Sprintf("--tlimit=%d", s.spec.TimeoutMs)}
+		for _, a := range s.spec.Argv {
+			if strings.HasPrefix(a, "--solve-bv-as-int") {
+				argv = append(argv, a)
+			}
+		}
+	case "z3-new":
+		argv = []string{"z3-new", "-in", fmt.Sprintf("-T:%d", secs)}
+	default:
+		argv = []string{"z3", "-in", fmt.Sprintf("-T:%d", secs)}
+	}
+	cmd := exec.Command(argv[0], argv[1:]...)
+	cmd.Stdin = strings.NewReader(sb.String())
+	done := make(chan struct{})
+	var out []byte
+	go func() { out, _ = cmd.CombinedOutput(); close(done) }()
+	select {
+	case <-done:
+	case <-time.After(time.Duration(s.spec.TimeoutMs+10000) * time.Millisecond):
+		if cmd.Process != nil {
+			cmd.Process.Kill()
+		}
+		<-done
+		return Unknown
+	}
+	txt := string(out)
+	first := strings.TrimSpace(txt)
+	if i := strings.Index(first, "\n"); i >= 0 {
+		first = strings.TrimSpace(first[:i])
+	}
+	if strings.Contains(txt, "(error") && !strings.Contains(txt, "model is not available") {
+		for _, l := range strings.Split(txt, "\n") {
+			if strings.HasPrefix(strings.TrimSpace(l), "(error") {
+				s.Errors = append(s.Errors, "one-shot: "+strings.TrimSpace(l))
+				break
+			}
+		}
+	}
+	switch first {
+	case "unsat":
+		return Unsat
+	case "sat":
+		rest := txt[strings.Index(txt, "sat")+3:]
+		vals := parseValues(rest)
+		s.lastModel = map[string]uint64{}
+		if len(vals) == len(vars) {
+			for i, v := range vars {
+				if x, err := parseSMTValue(vals[i], v.sort); err == nil {
+					s.lastModel[v.name] = x
+				}
+			}
+			s.lastOne = true
+			return Sat
+		}
+		s.Errors = append(s.Errors, "one-shot: cannot parse model")
+		return Unknown
+	}
+	return Unknown
 }
